@@ -256,6 +256,45 @@ def _run_cached(genfile, kind, key, cmd, timeout):
     return err
 
 
+def confirm(genfile, failures, linemap, covered, timeout=1800):
+    """Every function that the whole-crate run reports as failing is verified once more ALONE (cached).  Only what
+    that run reports counts: a failure that does not reproduce (solver `unknown` under memory pressure, a different
+    search order) is dropped; if the function runs out of resources alone, its record becomes a resource-limit record
+    (handled by the retry pass)."""
+    by_fn = {}
+    for f in failures:
+        if f.get('fn') and f['fn'] in covered and f['kind'] != 'rlimit':
+            by_fn.setdefault(f['fn'], []).append(f)
+    out = [f for f in failures if not (f.get('fn') and f['fn'] in by_fn and f['kind'] != 'rlimit')]
+    for fn, fs in by_fn.items():
+        mod = fs[0].get('module') or ''
+        tail = re.sub(r'@\w+::', '::', fn)
+        if mod and tail.startswith(mod + '::'):
+            tail = tail[len(mod) + 2:]
+        cmd = ['verus', genfile, '--cfg', 'feature="stream"', '--cfg', 'feature="raw_decoder"', '--no-lifetime',
+               '--triggers-mode', 'silent', '--multiple-errors', '8', '--error-format=json',
+               '--verify-function', '*' + tail]
+        cmd += ['--verify-only-module', mod] if mod and mod not in ('spec', 'prelude') else ['--verify-root']
+        err = _run_cached(genfile, 'confirm', fn, cmd, timeout)
+        if err is None:
+            out.extend(fs)          # could not be re-run in time: keep what the crate run said
+            continue
+        diags = []
+        for line in err.splitlines():
+            line = line.strip()
+            if line.startswith('{'):
+                try:
+                    diags.append(json.loads(line))
+                except Exception:
+                    pass
+        fl, te = classify(diags, linemap, genfile)
+        if te:
+            out.extend(fs)
+            continue
+        out.extend([f for f in fl if f.get('fn') == fn])
+    return out
+
+
 def narrow(genfile, failures, linemap, timeout=900):
     """A failed clause that carries several obligation tags (a conjunction under one binder) is narrowed to
     the failing conjuncts with Verus' --expand-errors on that one function.  If the expansion gives nothing
